@@ -417,6 +417,157 @@ Proof.
     intro H. eapply sp_sync; eauto. apply step_sync_spec; auto.
 Qed.
 
+
+(** ** Where closed channels come from *)
+
+Section Closed.
+
+Hypothesis chan_eqb_spec : forall a b, chan_eqb a b = true <-> a = b.
+
+Lemma chan_eqb_refl a : chan_eqb a a = true.
+Proof. apply chan_eqb_spec; reflexivity. Qed.
+
+Lemma upd_chan_same {B} (f : chan -> B) c x : upd chan_eqb f c x c = x.
+Proof. unfold upd. rewrite chan_eqb_refl. reflexivity. Qed.
+
+Lemma upd_chan_other {B} (f : chan -> B) c x c' : c' <> c -> upd chan_eqb f c x c' = f c'.
+Proof.
+  intro H. unfold upd. destruct (chan_eqb c' c) eqn:E; auto.
+  apply chan_eqb_spec in E. contradiction.
+Qed.
+
+Definition closes_of (a : act L chan var lock wgid val) : list chan :=
+  match a with
+  | AClose c _ => [c]
+  | ACloseOnce cs _ => cs
+  | _ => []
+  end.
+
+Lemma push_closed (s : state) c v c' :
+  c_closed (chans (push chan_eqb s c v) c') = c_closed (chans s c').
+Proof.
+  unfold push, set_chan. simpl. unfold upd.
+  destruct (chan_eqb c' c) eqn:E; auto. apply chan_eqb_spec in E. subst. reflexivity.
+Qed.
+
+Lemma push_procs (s : state) c v : procs (push chan_eqb s c v) = procs s.
+Proof. reflexivity. Qed.
+
+Lemma try_all_closed cs : forall (s : state) v s0 c',
+  try_all chan_eqb s cs v = Some s0 -> c_closed (chans s0 c') = c_closed (chans s c').
+Proof.
+  induction cs as [|c cs IH]; intros s v s0 c' H; simpl in H.
+  - inversion H; subst; reflexivity.
+  - destruct (c_closed (chans s c)); try discriminate.
+    destruct (has_room (chans s c)).
+    + rewrite (IH _ _ _ _ H). apply push_closed.
+    + apply (IH _ _ _ _ H).
+Qed.
+
+Lemma try_all_procs cs : forall (s : state) v s0,
+  try_all chan_eqb s cs v = Some s0 -> procs s0 = procs s.
+Proof.
+  induction cs as [|c cs IH]; intros s v s0 H; simpl in H.
+  - inversion H; subst; reflexivity.
+  - destruct (c_closed (chans s c)); try discriminate.
+    destruct (has_room (chans s c)).
+    + rewrite (IH _ _ _ H). reflexivity.
+    + apply (IH _ _ _ H).
+Qed.
+
+Lemma try_all_none cs : forall (s : state) v,
+  try_all chan_eqb s cs v = None -> exists c, In c cs /\ c_closed (chans s c) = true.
+Proof.
+  induction cs as [|c cs IH]; intros s v H; simpl in H; try discriminate.
+  destruct (c_closed (chans s c)) eqn:E.
+  - exists c. split; [left; auto|auto].
+  - destruct (has_room (chans s c)).
+    + destruct (IH _ _ H) as (c0 & Hin & Hc). exists c0. split; [right; auto|].
+      rewrite push_closed in Hc. exact Hc.
+    + destruct (IH _ _ H) as (c0 & Hin & Hc). exists c0. split; [right; auto|auto].
+Qed.
+
+Lemma close_all_closed cs : forall (s : state) c',
+  c_closed (chans (close_all chan_eqb s cs) c') = true ->
+  c_closed (chans s c') = true \/ In c' cs.
+Proof.
+  induction cs as [|c cs IH]; intros s c' H; simpl in H; auto.
+  destruct (IH _ _ H) as [H1|H1]; [|right; right; auto].
+  simpl in H1. unfold upd in H1. destruct (chan_eqb c' c) eqn:E; auto.
+  apply chan_eqb_spec in E. subst. right. left. reflexivity.
+Qed.
+
+Lemma close_all_keeps cs : forall (s : state) c',
+  c_closed (chans s c') = true -> c_closed (chans (close_all chan_eqb s cs) c') = true.
+Proof.
+  induction cs as [|c cs IH]; intros s c' H; simpl; auto.
+  apply IH. simpl. unfold upd. destruct (chan_eqb c' c) eqn:E; auto.
+Qed.
+
+Lemma close_all_closes cs : forall (s : state) c', In c' cs ->
+  c_closed (chans (close_all chan_eqb s cs) c') = true.
+Proof.
+  induction cs as [|c cs IH]; intros s c' Hin; [destruct Hin|].
+  simpl. destruct Hin as [->|Hin].
+  - apply close_all_keeps. simpl. rewrite upd_chan_same. reflexivity.
+  - apply IH; auto.
+Qed.
+
+Lemma close_all_procs cs : forall (s : state), procs (close_all chan_eqb s cs) = procs s.
+Proof. induction cs; intro s; simpl; auto. rewrite IHcs. reflexivity. Qed.
+
+Lemma recv_spec_closed (s : state) i c k s' c' :
+  recv_spec s i c k s' -> c_closed (chans s' c') = c_closed (chans s c').
+Proof.
+  intro H. inversion H; subst; simpl; auto.
+  unfold upd. destruct (chan_eqb c' c) eqn:E; auto. apply chan_eqb_spec in E. subst. reflexivity.
+Qed.
+
+Lemma send_spec_closed (s : state) i c v k s' c' :
+  send_spec s i c v k s' -> c_closed (chans s' c') = c_closed (chans s c').
+Proof.
+  intro H. inversion H; subst; simpl; auto.
+  fold (push chan_eqb s c v). apply push_closed.
+Qed.
+
+(** A channel is closed after a step only if it was closed before or the
+    moving process executed a close of it. *)
+Theorem step_closed_origin (s : state) e s' c :
+  step_spec s e s' ->
+  c_closed (chans s' c) = true ->
+  c_closed (chans s c) = true \/ exists l, In l (procs s) /\ In c (closes_of (code l)).
+Proof.
+  intros Hs Hc. inversion Hs; subst; clear Hs.
+  - assert (Hl : In l (procs s)) by (eapply nth_error_In; eauto).
+    inversion H1; subst; clear H1;
+      unfold set_proc, set_panic, set_lock, set_wg, set_var, add_proc in Hc; cbn [chans] in Hc; auto;
+      try (erewrite send_spec_closed in Hc by eauto; auto; fail);
+      try (erewrite recv_spec_closed in Hc by eauto; auto; fail);
+      try (rewrite push_closed in Hc; auto; fail).
+    + erewrite try_all_closed in Hc by eauto. auto.
+    + unfold set_chan in Hc. cbn [chans] in Hc. unfold upd in Hc.
+      destruct (chan_eqb c c0) eqn:E; auto.
+      apply chan_eqb_spec in E. subst. right. exists l. split; auto. rewrite H2. left; auto.
+    + destruct (close_all_closed _ _ _ Hc) as [?|Hin]; auto.
+      right. exists l. split; auto. rewrite H2. exact Hin.
+  - inversion H2; subst. unfold set_proc in Hc. cbn [chans] in Hc. auto.
+Qed.
+
+(** Hence a channel that no local state ever closes stays open. *)
+Corollary never_closed_invariant (s0 : state) c :
+  (forall l, ~ In c (closes_of (code l))) ->
+  c_closed (chans s0 c) = false ->
+  forall s, reachable s0 s -> c_closed (chans s c) = false.
+Proof.
+  intros Hno H0. apply invariant_rule; auto.
+  intros s e s' Hi Hs. apply step_to_spec in Hs.
+  destruct (c_closed (chans s' c)) eqn:E; auto.
+  destruct (step_closed_origin _ _ _ _ Hs E) as [H|(l & _ & Hin)]; [congruence|].
+  exfalso. eapply Hno; eauto.
+Qed.
+
+End Closed.
+
 (** ** The first message always fits
 
     A blocking send on a channel that is open, empty and has capacity at least
